@@ -3,6 +3,8 @@ import Ptn.Common.AnalysisLocal
 import Ptn.C06.Structure
 import Ptn.C06.Value
 import Ptn.C06.Demo
+import Ptn.C06.Gauge
+import Ptn.C17.Examples
 /-! Property theorems for C06, part 2 (Mathlib): the combinatorial theorems are in `Core.lean`
 (core Lean only, same namespace); here the linear-algebra consequences. -/
 namespace Ptn.C06
@@ -163,5 +165,162 @@ example : ((1 : Matrix (Idx Demo.dim Demo.kids.physAll × Fin 3) (Idx Demo.dim D
     = 1 := Matrix.conjTranspose_one
 
 end value
+
+/-! ### The state TDVP holds at every local update is canonical at the update site (builder B32)
+
+The gauge machine `Ptn.C06.Gauge` (`GaugeModel.lean`) runs the events of a whole time step - the sequences
+`eventsFirst` / `eventsSecond` / `eventsTwoSite` of the C05 discipline machine, which are tied to the code by
+C05 - on the C03 gauge record: `move` / `hop` / `link` / `two a b` record the QR (SVD) split of `a` toward `b`
+(`a` then points to `b`, `b` loses its record), `site` keeps the record.  `CanonAt t dir c`: `c` has no record and
+every other node points to the first node on its way to `c`. -/
+
+section gauge
+open Ptn.C17 Ptn.C17.RTree Ptn.C05.Disc Ptn.C06.Gauge
+
+/-- **At every event of a whole time step the record is canonical where the event happens** - all three
+schemes, every well-formed tree.  Started canonical at the first node `s` of the sweep:
+* before a site update `site v` the record is canonical at `v`;
+* before a link update `link a b` it is canonical at `a`, `a` and `b` are neighbours, and WHILE the link tensor is
+  evolved (after the QR split of `a`, before the contraction into `b`) it is canonical at the link: every node,
+  `a` and `b` included, points toward the link;
+* before a two-site update `two a b` it is canonical at `a`, and while the merged tensor is evolved it is
+  canonical at the pair: every node other than `a`, `b` points to its first hop toward `a` = toward `b`;
+* every QR of a centre move (`move`, `hop`) splits the current centre toward a neighbour;
+* after the step the record is canonical at `s` again and the machine's centre is `s`. -/
+theorem tdvp_site_update_canonical (t : RTree) (hwf : t.WF) (sch : Scheme) (hdef : sch.Defined t) :
+    ∃ u s evs, updatePath t = some u ∧ u.head? = some s ∧ sch.events t = some evs ∧
+      ∀ dir : Rec, CanonAt t dir s →
+        (∀ p v q, evs = p ++ .site v :: q →
+          (grun ⟨s, dir⟩ p).centre = v ∧ CanonAt t (grun ⟨s, dir⟩ p).dir v) ∧
+        (∀ p a b q, evs = p ++ .link a b :: q →
+          (grun ⟨s, dir⟩ p).centre = a ∧ Adj t a b ∧ CanonAt t (grun ⟨s, dir⟩ p).dir a ∧
+          CanonLink t (during (grun ⟨s, dir⟩ p).dir (.link a b)) a b) ∧
+        (∀ p a b q, evs = p ++ .two a b :: q →
+          (grun ⟨s, dir⟩ p).centre = a ∧ Adj t a b ∧ CanonAt t (grun ⟨s, dir⟩ p).dir a ∧
+          CanonPair t (during (grun ⟨s, dir⟩ p).dir (.two a b)) a b) ∧
+        (∀ p a b q, evs = p ++ .move a b :: q ∨ evs = p ++ .hop a b :: q →
+          (grun ⟨s, dir⟩ p).centre = a ∧ Adj t a b ∧ CanonAt t (grun ⟨s, dir⟩ p).dir a) ∧
+        CanonAt t (grun ⟨s, dir⟩ evs).dir s ∧ (grun ⟨s, dir⟩ evs).centre = s := by
+  obtain ⟨u, s, evs, hu, hs, _, hev, hw⟩ := scheme_walk t hwf sch hdef
+  refine ⟨u, s, evs, hu, hs, hev, ?_⟩
+  intro dir hc
+  obtain ⟨hgood, hfin, hcen⟩ := goodRun_of_walk hwf evs ⟨s, dir⟩ s hw hc
+  refine ⟨?_, ?_, ?_, ?_, hfin, hcen⟩
+  · intro p v q h
+    obtain ⟨hp, hcan, _⟩ := goodRun_split hgood p _ q h
+    have : (grun ⟨s, dir⟩ p).centre = v := by
+      simp only [gpre, pre, Bool.and_eq_true, beq_iff_eq] at hp; exact hp.1
+    exact ⟨this, this ▸ hcan⟩
+  · intro p a b q h
+    obtain ⟨hp, hcan, hl⟩ := goodRun_split hgood p _ q h
+    obtain ⟨hca, hab⟩ := gpre_pair (Or.inr (Or.inl rfl)) hp
+    exact ⟨hca, hab, hca ▸ hcan, hl⟩
+  · intro p a b q h
+    obtain ⟨hp, hcan, hl⟩ := goodRun_split hgood p _ q h
+    obtain ⟨hca, hab⟩ := gpre_pair (Or.inr (Or.inr (Or.inl rfl))) hp
+    exact ⟨hca, hab, hca ▸ hcan, hl⟩
+  · intro p a b q h
+    rcases h with h | h
+    · obtain ⟨hp, hcan, _⟩ := goodRun_split hgood p _ q h
+      obtain ⟨hca, hab⟩ := gpre_pair (Or.inl rfl) hp
+      exact ⟨hca, hab, hca ▸ hcan⟩
+    · obtain ⟨hp, hcan, _⟩ := goodRun_split hgood p _ q h
+      obtain ⟨hca, hab⟩ := gpre_pair (Or.inr (Or.inr (Or.inr rfl))) hp
+      exact ⟨hca, hab, hca ▸ hcan⟩
+
+/-- **The invariant over the life of the algorithm object.**  The constructor leaves a record canonical at the
+first node `s` of the sweep - by `canonical_form(s)` on a state without centre (C03 `canon_gauge_tree`:
+`canonRec`), or by `move_orthogonalization_center(s)` from a state canonical at any node `c0` (QR hops along the
+way from `c0` to `s`) - and from a record canonical at `s` ANY number `k` of time steps keeps every event `Good`
+(centre where the event starts, canonical there, canonical at the link / pair during link and two-site
+updates) and ends canonical at `s`. -/
+theorem tdvp_gauge_invariant (t : RTree) (hwf : t.WF) (sch : Scheme) (hdef : sch.Defined t) :
+    ∃ u s evs, updatePath t = some u ∧ u.head? = some s ∧ sch.events t = some evs ∧
+      (∃ ops dir0, canonRec t s = some (ops, dir0) ∧ CanonAt t dir0 s) ∧
+      (∀ c0 ∈ ids t, ∀ dir : Rec, CanonAt t dir c0 → ∃ p, pathFromTo t c0 s = some p ∧
+        GoodRun t ⟨c0, dir⟩ (hopsAlong p) ∧
+        CanonAt t (grun ⟨c0, dir⟩ (hopsAlong p)).dir s ∧ (grun ⟨c0, dir⟩ (hopsAlong p)).centre = s) ∧
+      ∀ dir : Rec, CanonAt t dir s → ∀ k : Nat,
+        GoodRun t ⟨s, dir⟩ (List.replicate k evs).flatten ∧
+        CanonAt t (grun ⟨s, dir⟩ (List.replicate k evs).flatten).dir s ∧
+        (grun ⟨s, dir⟩ (List.replicate k evs).flatten).centre = s := by
+  obtain ⟨u, s, evs, hu, hs, hsm, hev, hw⟩ := scheme_walk t hwf sch hdef
+  refine ⟨u, s, evs, hu, hs, hev, canonRec_canon t hwf s hsm, ?_, ?_⟩
+  · intro c0 hc0 dir hc
+    obtain ⟨p, hp, hwp⟩ := walk_path_hops hwf hc0 hsm
+    exact ⟨p, hp, goodRun_of_walk hwf _ ⟨c0, dir⟩ s hwp hc⟩
+  · intro dir hc k
+    exact goodRun_of_walk hwf _ ⟨s, dir⟩ s (walk_replicate hw k) hc
+
+/-- **The STATE is canonical at every update** - the record read as a statement about the tensors, with the
+contracts of the external factorisations as explicit hypotheses.  `α`: tensors, `iso A m`: "`A` is an isometry
+toward the neighbour `m`"; `TRun iso T0 p T`: the tensors `T` after the events `p`, where an event may replace
+ANY tensors it writes (`site v`: the tensor of `v`; a split of `a` toward `b`: those of `a` and `b`) subject only
+to the QR / SVD contract that the factor left at `a` is an isometry toward `b` (`Writes`).  Started with a record
+canonical at `s` that is true of the tensors (`Sound`), over any number `k` of time steps: before every event the
+tensor of every node other than the machine's centre - which is where the event starts - is an isometry toward
+the first node on its way to the centre; during a link update (tensors `T1` after the split of `a`) every
+tensor is an isometry toward the link; during a two-site update every tensor other than the two merged ones is
+an isometry toward the pair. -/
+theorem tdvp_site_update_isometric {α : Type} (iso : α → Nat → Prop) (t : RTree) (hwf : t.WF)
+    (sch : Scheme) (hdef : sch.Defined t) :
+    ∃ u s evs, updatePath t = some u ∧ u.head? = some s ∧ sch.events t = some evs ∧
+      ∀ (dir : Rec) (T0 : Nat → α), CanonAt t dir s → Sound iso dir T0 →
+      ∀ (k : Nat) (p q : List DEv) (e : DEv) (T : Nat → α),
+        (List.replicate k evs).flatten = p ++ e :: q → TRun iso T0 p T →
+        gpre t (grun ⟨s, dir⟩ p).centre e = true ∧
+        IsoCanonAt iso t T (grun ⟨s, dir⟩ p).centre ∧
+        (∀ a b, e = .link a b → ∀ T1 : Nat → α, (∀ n, n ≠ a → T1 n = T n) → iso (T1 a) b →
+          IsoCanonLink iso t T1 a b) ∧
+        (∀ a b, e = .two a b → IsoCanonPair iso t T a b) := by
+  obtain ⟨u, s, evs, hu, hs, _, hev, hw⟩ := scheme_walk t hwf sch hdef
+  refine ⟨u, s, evs, hu, hs, hev, ?_⟩
+  intro dir T0 hc hsd k p q e T hsplit hr
+  obtain ⟨hp, hiso⟩ := state_canonical_at_event (st := ⟨s, dir⟩) hwf (walk_replicate hw k) hc hsd hsplit hr
+  refine ⟨hp, hiso, ?_, ?_⟩
+  · intro a b he T1 hk hi
+    subst he
+    obtain ⟨hca, hab⟩ := gpre_pair (Or.inr (Or.inl rfl)) hp
+    exact isoCanonLink_of_split hwf hab (hca ▸ hiso) hk hi
+  · intro a b he
+    subst he
+    obtain ⟨hca, hab⟩ := gpre_pair (Or.inr (Or.inr (Or.inl rfl))) hp
+    exact isoCanonPair_of_at hwf hab (hca ▸ hiso)
+
+/-! Non-vacuity: the 8-node tree of the C17 examples (root 0 with the branches 1-(3,4), 2, 5-6-7); the sweep
+starts at node 7. -/
+
+example : exTree.WF ∧ Scheme.Defined exTree .first ∧ Scheme.Defined exTree .second ∧
+    Scheme.Defined exTree .twoSite := by
+  refine ⟨by decide, trivial, ?_, ?_⟩ <;> (show exTree.kids ≠ []; decide)
+
+/-- the record after `canonical_form(7)` is canonical at 7 (executable form), the machine checks every event of
+one first-order, one second-order and one two-site step, and ends canonical at 7 -/
+example : (canonRec exTree 7).map (fun r => showRec exTree r.2) = some "0>5 1>0 3>1 4>1 2>0 5>6 6>7 7>-" := by
+  decide
+example : ((canonRec exTree 7).bind fun r => (eventsSecond exTree).map fun evs =>
+    canonAtB exTree r.2 7 && allGoodB exTree ⟨7, r.2⟩ evs &&
+      canonAtB exTree (grun ⟨7, r.2⟩ evs).dir 7) = some true := by decide
+example : ((canonRec exTree 7).bind fun r => (eventsTwoSite exTree).map fun evs =>
+    allGoodB exTree ⟨7, r.2⟩ evs && canonAtB exTree (grun ⟨7, r.2⟩ evs).dir 7) = some true := by decide
+example : ((canonRec exTree 7).bind fun r => (eventsFirst exTree).map fun evs =>
+    allGoodB exTree ⟨7, r.2⟩ evs && canonAtB exTree (grun ⟨7, r.2⟩ evs).dir 7) = some true := by decide
+/-- the splits of one second-order step begin with the link update 7 -> 6 -/
+example : (eventsSecond exTree).map (fun evs => (opsOf evs).take 3) =
+    some [⟨.qr, 7, 6⟩, ⟨.qr, 6, 5⟩, ⟨.qr, 5, 0⟩] := by decide
+
+/-- the tensor-level hypotheses are satisfiable: tensors abstracted to "the neighbour I am an isometry toward"
+(`α = Option Nat`, `iso A m := A = some m`), the record itself as the tensor state, the first two events of a
+step -/
+example : ∃ dir : Rec, CanonAt exTree dir 7 ∧ Sound (fun (A : Option Nat) m => A = some m) dir dir ∧
+    TRun (fun (A : Option Nat) m => A = some m) dir [.site 7, .link 7 6]
+      (Ptn.C03.applyOp dir ⟨7, 6⟩) := by
+  obtain ⟨ops, dir, _, hc⟩ := canonRec_canon exTree (by decide) 7 (by decide)
+  refine ⟨dir, hc, fun _ _ h => h, ?_⟩
+  refine TRun.cons (T1 := dir) (fun _ _ => rfl) (TRun.cons ⟨?_, ?_⟩ (TRun.nil _))
+  · intro n h1 h2; simp [Ptn.C03.applyOp, h1, h2]
+  · simp [Ptn.C03.applyOp]
+
+end gauge
 
 end Ptn.C06
